@@ -5,6 +5,7 @@ import CobaldVerif.Drive.C07
 import CobaldVerif.Drive.C08
 import CobaldVerif.Drive.C14
 import CobaldVerif.Drive.C15
+import CobaldVerif.Drive.C16
 import CobaldVerif.Drive.C17
 import CobaldVerif.Drive.C19
 
@@ -20,6 +21,7 @@ def dispatch (prop : String) (j : Json) : Except String Json :=
   | "C08" => C08.handle j
   | "C14" => C14.handle j
   | "C15" => C15.handle j
+  | "C16" => C16.handle j
   | "C17" => C17.handle j
   | "C19" => C19.handle j
   | p => throw s!"unknown property {p}"
